@@ -19,7 +19,12 @@
 //	f link | f unlink | f open r w | f close r w | f read off len | f seek off
 //	f getattr | f setperm x | f chown | f persist | f resolve | f fault kind v
 //	f write t off bytes | f alloc t off len | f setattr t size x|- | f opentrunc t r w
-//	f ubegin t upload k|- fn | f putdone t ok | f fread t off len | f fclose t | f stat t fn
+//	f ubegin t upload k|- fn [c] | f ucancel t | f putdone t ok | f fread t off len | f fclose t | f stat t fn
+//	f openattr   (cfg 1/2: OPENATTR createdir + one attribute file; not part of the model)
+//
+// `c` / `ucancel`: the context passed to ApplyUploadFile is cancelled before the upload
+// starts / while it waits for writers / while it is inside Put (the fake CAS then fails the
+// Put like a real BlobAccess; for the model that is `putdone t 0`).
 //
 // The wake-ups of parked calls are not ops: after every op the implementation
 // runs until all goroutines are durably blocked, and the model takes its enabled
@@ -50,6 +55,7 @@ import (
 	"github.com/buildbarn/bb-remote-execution/pkg/filesystem/virtual"
 	bazeloutputservicerev2 "github.com/buildbarn/bb-remote-execution/pkg/proto/bazeloutputservice/rev2"
 	"github.com/buildbarn/bb-remote-execution/pkg/proto/outputpathpersistency"
+	"github.com/buildbarn/bb-storage/pkg/clock"
 	"github.com/buildbarn/bb-storage/pkg/digest"
 	"github.com/buildbarn/bb-storage/pkg/filesystem"
 	"github.com/buildbarn/bb-storage/pkg/filesystem/path"
@@ -179,6 +185,7 @@ type fileW struct {
 	atRelease           map[int][]byte // upload -> pool file contents when its Put was released
 	holders             map[int]int    // thread holding a frozen reader -> mutation counter when it got it
 	prevClosed          bool
+	attrFiles           []*fakeFile // pool files of the named attributes of this file
 }
 
 // content is what the (harness-owned) pool file holds right now.
@@ -207,6 +214,8 @@ type thread struct {
 	reader filesystem.FileReader
 	dig    digest.Digest
 
+	cancel    context.CancelFunc
+	cancelled bool
 	accounted bool
 	advanced  bool // upload/frozen: got past the wait for writers
 	retired   bool
@@ -220,6 +229,7 @@ func (th *thread) state() (done bool, tok string) {
 
 type outcome struct {
 	panicMsg string // first Go panic of the implementation (witness mode)
+	hang     bool   // the monitor failure is a call that never terminates
 	monitor  string
 	mismatch string
 	expected string
@@ -235,7 +245,7 @@ type runner struct {
 	alloc    [3]virtual.FileAllocator
 	nfs      *virtual.NFSStatefulHandleAllocator
 	pool     *fakePool
-	naf      *fakeNamedAttributesFactory
+	nafs     [3]*fakeNamedAttributesFactory
 	cas      *fakeCAS
 	delays   *delays
 	files    map[int]*fileW
@@ -254,6 +264,14 @@ func (r *runner) fail(format string, a ...any) {
 	if r.out.monitor == "" {
 		r.out.monitor = fmt.Sprintf(format, a...)
 	}
+}
+
+// failHang: the violation is "a call never terminates" (also judged by C14).
+func (r *runner) failHang(format string, a ...any) {
+	if r.out.monitor == "" {
+		r.out.hang = true
+	}
+	r.fail(format, a...)
 }
 
 func (r *runner) mismatch(what, expected, actual string) {
@@ -452,6 +470,9 @@ func (r *runner) modelOp(f *fileW, op string, t int) (tok, dump string) {
 				return r.modelOp(f, fmt.Sprintf("udigest %d", t), t)
 			case tok == "opened" && th.kind == "stat":
 				return r.modelOp(f, fmt.Sprintf("statfinish %d", t), t)
+			case strings.HasPrefix(tok, "putting") && th.cancelled:
+				// the Put of an upload whose context is done fails right away
+				return r.modelOp(f, fmt.Sprintf("putdone %d 0", t), t)
 			}
 		}
 		r.mtok[t] = f.canonModelTok(tok)
@@ -590,9 +611,9 @@ func (r *runner) accountThreads(f *fileW) {
 				}
 			} else {
 				if f.wbits == 0 {
-					r.fail("file %d: upload/frozen open %d is blocked although no writable descriptor is open", f.idx, th.id)
+					r.failHang("file %d: upload/frozen open %d is blocked although no writable descriptor is open", f.idx, th.id)
 				} else if th.k >= 0 && r.delays.fired[th.k] {
-					r.fail("file %d: upload/frozen open %d is still blocked after its delay channel fired", f.idx, th.id)
+					r.failHang("file %d: upload/frozen open %d is still blocked after its delay channel fired", f.idx, th.id)
 				}
 				r.out.flags["upload-parked"] = true
 			}
@@ -617,7 +638,7 @@ func (r *runner) accountThreads(f *fileW) {
 		if !done {
 			if !isUp {
 				if len(f.holders) == 0 {
-					r.fail("file %d: %s call %d is blocked although the file has no frozen reader", f.idx, th.kind, th.id)
+					r.failHang("file %d: %s call %d is blocked although the file has no frozen reader", f.idx, th.kind, th.id)
 				}
 				r.out.flags["mutator-parked"] = true
 			}
@@ -702,6 +723,12 @@ func (r *runner) monitorFile(f *fileW) {
 	if rel != closes {
 		r.fail("file %d: named attributes released %d times, pool file closed %d times", f.idx, rel, closes)
 	}
+	for _, af := range f.attrFiles {
+		_, ac, aafter, _ := af.snapshot()
+		if ac != want || len(aafter) > 0 {
+			r.fail("file %d: the pool file of its named attribute was closed %d times (expected %d), accesses after Close: %d", f.idx, ac, want, len(aafter))
+		}
+	}
 	if closes == 1 && want == 1 && !f.prevClosed {
 		f.prevClosed = true
 		r.out.flags["closed-by-last-reference"] = true
@@ -770,7 +797,7 @@ func (r *runner) newFile(ws []string) bool {
 		r.fail("NewFile failed: %s %v", tok, err)
 		return true
 	}
-	f := &fileW{idx: idx, cfg: cfg, leaf: leaf, ff: r.pool.last, na: r.naf.last, links: 1,
+	f := &fileW{idx: idx, cfg: cfg, leaf: leaf, ff: r.pool.last, na: r.nafs[cfg].last, links: 1,
 		rbits: b2i(rb), wbits: b2i(wb), atRelease: map[int][]byte{}, holders: map[int]int{}}
 	if cfg == 2 {
 		f.nfs = r.nfs
@@ -859,9 +886,15 @@ func (r *runner) apply(op string) bool {
 		mop = "statopen " + strings.Join(args, " ")
 	case "resolve":
 		mop = "getattr"
+	case "openattr":
+		mop = "getattr" // named attributes are not part of the model
+	case "ubegin":
+		if len(args) == 5 && args[4] == "c" {
+			mop = "ubegin " + strings.Join(args[:4], " ")
+		}
 	}
 	switch name {
-	case "write", "alloc", "setattr", "opentrunc", "ubegin", "putdone", "fread", "fclose", "stat":
+	case "write", "alloc", "setattr", "opentrunc", "ubegin", "putdone", "fread", "fclose", "stat", "ucancel":
 		if len(args) < 1 {
 			return false
 		}
@@ -876,12 +909,24 @@ func (r *runner) apply(op string) bool {
 		if r.threads[t] != nil {
 			return false
 		}
-	case "putdone", "fread", "fclose":
+	case "putdone", "fread", "fclose", "ucancel":
 		if th := r.threads[t]; th == nil || th.f != idx || th.retired {
 			return false
 		}
 	}
-	if r.drv != nil && !r.stopCmp {
+	if name == "ucancel" {
+		// cancelling the context of an upload: for the model nothing happens while the upload
+		// waits for writers; an upload inside Put sees its Put fail (= `putdone t 0`)
+		th := r.threads[t]
+		if done, _ := th.state(); th.kind != "upload" || th.cancelled || done || th.cancel == nil {
+			return false
+		}
+		mop = ""
+		if r.cas.pendingOf(t) != nil {
+			mop = fmt.Sprintf("putdone %d 0", t)
+		}
+	}
+	if mop != "" && r.drv != nil && !r.stopCmp {
 		switch l := r.ask(fmt.Sprintf("legal %d %s", idx, mop)); l {
 		case "yes":
 		case "no":
@@ -1058,6 +1103,51 @@ func (r *runner) apply(op string) bool {
 				r.fail("file %d: the cached digest %s was reported but the file contains %s (digest %s)", idx, iw[1], showBytes(f.content()), want)
 			}
 		}
+	case "openattr":
+		// OPENATTR with createdir + one attribute file (as macOS does for com.apple.* attributes)
+		if f.cfg == 0 || wasDead {
+			return false
+		}
+		r.call(func() string {
+			var a, a2 virtual.Attributes
+			dir, s := f.leaf.VirtualOpenNamedAttributes(ctx, true, 0, &a)
+			if s != virtual.StatusOK {
+				return statusTok(s)
+			}
+			if len(f.attrFiles) == 0 {
+				leaf, _, _, s := dir.VirtualOpenChild(ctx, path.MustNewComponent("com.example.origin"), virtual.ShareMaskWrite,
+					(&virtual.Attributes{}).SetPermissions(virtual.PermissionsRead|virtual.PermissionsWrite), nil, 0, &a2)
+				if s != virtual.StatusOK {
+					return statusTok(s)
+				}
+				f.attrFiles = append(f.attrFiles, r.pool.last)
+				leaf.VirtualWrite(ctx, []byte("x"), 0)
+				leaf.VirtualClose(virtual.ShareMaskWrite)
+			}
+			return "ok"
+		})
+		// the model is only asked for the attributes of the file, which must not have changed
+		itok, _ = r.call(func() string {
+			var a virtual.Attributes
+			f.leaf.VirtualGetAttributes(ctx, f.attrMask(), &a)
+			return f.attrsTok(&a)
+		})
+		r.out.flags["named-attributes"] = true
+	case "ucancel":
+		th := r.threads[t]
+		if r.cas.pendingOf(t) != nil {
+			if _, _, _, mut := f.ff.snapshot(); f.holders[t] != mut {
+				r.fail("file %d: the contents changed (%d mutating pool calls) while upload %d had the file frozen", idx, mut-f.holders[t], t)
+			}
+			r.out.flags["cancel-during-put"] = true
+		} else {
+			r.out.flags["cancel-during-wait"] = true
+		}
+		th.cancelled = true
+		th.cancel()
+		synctest.Wait()
+		progress.Add(1)
+		itok = "ok"
 	case "fault":
 		if len(args) != 2 {
 			return false
@@ -1148,7 +1238,7 @@ func (r *runner) apply(op string) bool {
 			return f.attrsTok(&a)
 		})
 	case "ubegin":
-		if len(args) != 4 {
+		if len(args) != 4 && !(len(args) == 5 && args[4] == "c" && args[1] == "1") {
 			return false
 		}
 		upload, ok1 := flag(args[1])
@@ -1164,9 +1254,17 @@ func (r *runner) apply(op string) bool {
 		th.k, th.fn = k, fn
 		if upload {
 			th.kind = "upload"
+			uctx, cancel := context.WithCancel(context.WithValue(ctx, tidKey{}, t))
+			th.cancel = cancel
+			if len(args) == 5 {
+				// the caller has already given up when the upload starts
+				th.cancelled = true
+				cancel()
+				r.out.flags["cancel-before-upload"] = true
+			}
 			r.spawn(th, func() string {
 				p := virtual.ApplyUploadFile{
-					Context:                   context.WithValue(ctx, tidKey{}, t),
+					Context:                   uctx,
 					ContentAddressableStorage: r.cas,
 					DigestFunction:            digestFns[fn],
 					WritableFileUploadDelay:   r.delays.channel(k),
@@ -1322,7 +1420,7 @@ func (r *runner) apply(op string) bool {
 		}
 	}
 	if itok == "" && !isNewThread && name != "putdone" {
-		r.fail("file %d: `%s` did not return (blocked)", idx, op)
+		r.failHang("file %d: `%s` did not return (blocked)", idx, op)
 	}
 	r.out.flags["op-"+name] = true
 	if wasDead && (name == "link" || name == "open") {
@@ -1344,10 +1442,10 @@ func (r *runner) afterSegment(f *fileW, name, mop, itok, op string) {
 		}
 	}
 	if r.drv != nil && !r.stopCmp {
-		if f != nil {
+		if f != nil && mop != "" {
 			t := -1
 			switch name {
-			case "write", "alloc", "setattr", "opentrunc", "ubegin", "putdone", "stat":
+			case "write", "alloc", "setattr", "opentrunc", "ubegin", "putdone", "stat", "ucancel":
 				t, _ = strconv.Atoi(strings.Fields(mop)[1])
 			}
 			mtok, _ := r.modelOp(f, mop, t)
@@ -1426,7 +1524,7 @@ func (r *runner) finalize() {
 		}
 		for _, th := range f.threads {
 			if done, _ := th.state(); !done {
-				r.fail("file %d: %s call %d never returned although all frozen readers were closed and all writable descriptors were closed", i, th.kind, th.id)
+				r.failHang("file %d: %s call %d never returned although all frozen readers were closed and all writable descriptors were closed", i, th.kind, th.id)
 				return
 			}
 		}
@@ -1441,6 +1539,11 @@ func (r *runner) finalize() {
 
 func (r *runner) cleanup() {
 	r.delays.cancelAll()
+	for _, th := range r.threads {
+		if th.cancel != nil {
+			th.cancel()
+		}
+	}
 	r.cas.mu.Lock()
 	for _, c := range r.cas.pending {
 		select {
@@ -1475,19 +1578,31 @@ func runHistory(t *testing.T, ops []string, drv *hx.Driver, illegal bool, gen fu
 		// channels makes synctest panic when the bubble ends
 		if p := recover(); p != nil {
 			if out.monitor == "" {
+				out.hang = true
 				out.monitor = fmt.Sprintf("goroutines of the implementation are still blocked at the end of the history: %v", p)
 			}
 		}
 	}()
 	synctest.Test(t, func(t *testing.T) {
-		r := &runner{drv: drv, pool: &fakePool{}, naf: &fakeNamedAttributesFactory{},
+		r := &runner{drv: drv, pool: &fakePool{},
 			cas: &fakeCAS{pending: map[int]*putCall{}}, delays: newDelays(),
 			files: map[int]*fileW{}, threads: map[int]*thread{}, mtok: map[int]string{}, out: &out, illegal: illegal}
-		base := virtual.NewPoolBackedFileAllocator(r.pool, &fakeErrorLogger{}, noDefaults, r.naf)
+		logger := &fakeErrorLogger{}
 		r.nfs = virtual.NewNFSHandleAllocator(random.NewFastSingleThreadedGenerator())
-		r.alloc[0] = base
-		r.alloc[1] = virtual.NewHandleAllocatingFileAllocator(base, virtual.NewFUSEHandleAllocator(random.FastThreadSafeGenerator))
-		r.alloc[2] = virtual.NewHandleAllocatingFileAllocator(base, r.nfs)
+		r.nafs[0] = &fakeNamedAttributesFactory{}
+		r.alloc[0] = virtual.NewPoolBackedFileAllocator(r.pool, logger, noDefaults, r.nafs[0])
+		// behind a handle allocator the files get the named attributes that
+		// virtualBuildDirectory.InstallHooks installs (attribute files live in the same pool)
+		symlinks := virtual.NewErrorSymlinkFactory(status.Error(codes.PermissionDenied, "no symlinks"))
+		for cfg, ha := range map[int]virtual.StatefulHandleAllocator{
+			1: virtual.NewFUSEHandleAllocator(random.FastThreadSafeGenerator), 2: r.nfs} {
+			attrFiles := virtual.NewHandleAllocatingFileAllocator(
+				virtual.NewPoolBackedFileAllocator(r.pool, logger, noDefaults, virtual.InNamedAttributeDirectoryNamedAttributesFactory), ha)
+			r.nafs[cfg] = &fakeNamedAttributesFactory{
+				inner: virtual.NewInMemoryNamedAttributesFactory(attrFiles, symlinks, logger, ha, clock.SystemClock)}
+			r.alloc[cfg] = virtual.NewHandleAllocatingFileAllocator(
+				virtual.NewPoolBackedFileAllocator(r.pool, logger, noDefaults, r.nafs[cfg]), ha)
+		}
 		if drv != nil {
 			if a := r.ask("reset"); a != "ok" {
 				out.mismatch = fmt.Sprintf("driver reset: %q", a)
@@ -1502,6 +1617,7 @@ func runHistory(t *testing.T, ops []string, drv *hx.Driver, illegal bool, gen fu
 				if op == "" {
 					break
 				}
+				currentHistory.Store(append(append([]string(nil), out.executed...), op))
 				if r.apply(op) {
 					out.executed = append(out.executed, op)
 					currentHistory.Store(out.executed)
@@ -1512,6 +1628,7 @@ func runHistory(t *testing.T, ops []string, drv *hx.Driver, illegal bool, gen fu
 				if stop() {
 					break
 				}
+				currentHistory.Store(append(append([]string(nil), out.executed...), op))
 				if r.apply(op) {
 					out.executed = append(out.executed, op)
 				}
@@ -1575,7 +1692,7 @@ func makeGen(rnd *hx.Rand) func(r *runner, n int) string {
 		f := r.files[idx]
 		size := len(f.content())
 		parkedM, parkedU, live := 0, 0, 0
-		var inPut, held []int
+		var inPut, held, cancellable []int
 		for _, th := range f.threads {
 			if th.retired {
 				continue
@@ -1588,8 +1705,14 @@ func makeGen(rnd *hx.Rand) func(r *runner, n int) string {
 			case done:
 			case r.cas.pendingOf(th.id) != nil:
 				inPut = append(inPut, th.id)
+				if !th.cancelled {
+					cancellable = append(cancellable, th.id)
+				}
 			case th.kind == "upload" || th.kind == "frozen":
 				parkedU++
+				if th.kind == "upload" && !th.cancelled {
+					cancellable = append(cancellable, th.id)
+				}
 			default:
 				parkedM++
 			}
@@ -1651,7 +1774,11 @@ func makeGen(rnd *hx.Rand) func(r *runner, n int) string {
 			if parkedU < maxParked {
 				k := func() string { return []string{"-", "0", "1", "0"}[rnd.Intn(4)] }
 				add(2+p.uploadBias, func() string {
-					return fmt.Sprintf("%d ubegin %d 1 %s %d", idx, newT(), k(), rnd.Intn(2))
+					c := ""
+					if rnd.Chance(1, 8) {
+						c = " c" // the caller's context is already done
+					}
+					return fmt.Sprintf("%d ubegin %d 1 %s %d%s", idx, newT(), k(), rnd.Intn(2), c)
 				})
 				add(1, func() string {
 					return fmt.Sprintf("%d ubegin %d 0 %s %d", idx, newT(), k(), rnd.Intn(2))
@@ -1668,6 +1795,13 @@ func makeGen(rnd *hx.Rand) func(r *runner, n int) string {
 				}
 				return fmt.Sprintf("%d putdone %d %d", idx, t, ok)
 			})
+		}
+		for _, t := range cancellable {
+			t := t
+			add(1, func() string { return fmt.Sprintf("%d ucancel %d", idx, t) })
+		}
+		if f.cfg != 0 && !f.dead() && (len(f.attrFiles) == 0 || rnd.Chance(1, 10)) {
+			add(1, func() string { return fmt.Sprintf("%d openattr", idx) })
 		}
 		for _, t := range held {
 			t := t
@@ -1710,11 +1844,15 @@ var fixedHistories = [][]string{
 	// by path parks behind a frozen reader, the directory entry goes, the reader is closed (last reference),
 	// the parked call resumes on the released file and must fail cleanly
 	{"new 0 1 0 0 0 3", "0 ubegin 1 0 - 0", "0 setattr 2 1 -", "0 unlink", "0 fclose 1"},
+	// a file with a named attribute directory behind the NFS / FUSE handle allocator whose last
+	// reference goes away through Unlink (releases the attribute directory and its handles)
+	{"new 0 2 0 0 0 0", "0 openattr", "0 resolve", "0 unlink", "0 resolve", "0 open 1 0"},
+	{"new 0 1 0 1 0 0", "0 openattr", "0 unlink", "0 close 0 1"},
 	// the same for a write and an allocation whose descriptor is closed while they are parked
 	{"new 0 2 0 0 0 0", "0 ubegin 1 0 - 0", "0 open 0 1", "0 write 2 0 1.2", "0 alloc 3 0 4", "0 unlink", "0 close 0 1", "0 fclose 1", "0 write 4 0 9", "0 setattr 5 2 -"},
 }
 
-const rule = "histories of <=200 ops on <=3 files (bare / FUSE-wrapped / NFS-wrapped pool-backed files): link/unlink, open/close with every share mask incl. partial closes, read/seek/getattr/setperm/chown, write/allocate/size change/O_TRUNC (parking behind frozen readers; also issued or resumed after the last reference is gone), uploads and frozen opens with 2 digest functions and 2 delay channels or none (parking behind writers; writer closes during the wait; delay fires), completion of the CAS Put ok|err, frozen reads, output-service stat, persisted cached digest, NFS handle resolution, sticky pool faults (WriteAt none/partial, Truncate, ReadAt), generated from the running implementation's state in a synctest bubble, plus 6 fixed histories; every history ends with complete-all + close-all + unlink-all; non-trivial = the pool file was closed by the disappearance of the last reference, an upload returned a digest, and some call parked (a mutator behind a frozen reader or an upload behind a writer); distinct = hash of the executed op list"
+const rule = "histories of <=200 ops on <=3 files (bare / FUSE-wrapped / NFS-wrapped pool-backed files): link/unlink, open/close with every share mask incl. partial closes, read/seek/getattr/setperm/chown, write/allocate/size change/O_TRUNC (parking behind frozen readers; also issued or resumed after the last reference is gone), uploads and frozen opens with 2 digest functions and 2 delay channels or none (parking behind writers; writer closes during the wait; delay fires), upload contexts cancelled before the upload / during the wait for writers / inside Put, named attribute directories (OPENATTR + attribute file) on FUSE/NFS-wrapped files, completion of the CAS Put ok|err, frozen reads, output-service stat, persisted cached digest, NFS handle resolution, sticky pool faults (WriteAt none/partial, Truncate, ReadAt), generated from the running implementation's state in a synctest bubble, plus 8 fixed histories; every history ends with complete-all + close-all + unlink-all; non-trivial = the pool file was closed by the disappearance of the last reference, an upload returned a digest, and some call parked (a mutator behind a frozen reader or an upload behind a writer); distinct = hash of the executed op list"
 
 func nontrivial(o *outcome) bool {
 	return o.flags["closed-by-last-reference"] && o.flags["upload-ok"] && (o.flags["mutator-parked"] || o.flags["upload-parked"])
@@ -1729,6 +1867,16 @@ func TestHarness(t *testing.T) {
 		os.Exit(3)
 	}
 	defer drv.Close()
+
+	// Started for another property than C16 (`-prop C14`: every path releases its locks
+	// and wake-ups, so every later call terminates) only the findings of the kind "a call
+	// never terminates" are reported, under that property.
+	prop := o.Prop
+	if prop == "" {
+		prop = "C16"
+	}
+	hangsOnly := prop != "C16"
+	const hangName = "monitor on the real allocator: every call on a pool-backed file returns (a mutating call returns once the frozen readers are closed, an upload once the writers are gone or its delay fired, everything at the end of the history)"
 
 	// watchdog: a mutation can make the real code block on its mutex for ever,
 	// which synctest cannot see; report the history instead of hanging.
@@ -1746,10 +1894,10 @@ func TestHarness(t *testing.T) {
 				last, lastChange = p, time.Now()
 			} else if time.Since(lastChange) > 60*time.Second {
 				ops, _ := currentHistory.Load().([]string)
-				res.Report(hx.Finding{Kind: "violation", Property: "C16", History: ops,
-					Name: "C16 monitor: every segment of a file operation terminates",
+				res.Report(hx.Finding{Kind: "violation", Property: prop, History: ops,
+					Name: prop + " monitor: every segment of a file operation terminates",
 					What: "the implementation did not reach the end of a segment within 60 s of real time (blocked outside any channel wait, e.g. on its mutex)",
-					Sig:  hx.Sig("C16", "fileref", "hang")})
+					Sig:  hx.Sig(prop, "fileref", "hang")})
 				res.ModelLines = drv.Lines
 				res.Write(o)
 				os.Exit(0)
@@ -1774,14 +1922,16 @@ func TestHarness(t *testing.T) {
 		fails := func(cand []string) bool {
 			r := runHistory(t, cand, drv, false, nil)
 			if wantMonitor {
-				return r.monitor != ""
+				return r.monitor != "" && (r.hang || !hangsOnly)
 			}
 			return r.monitor == "" && r.mismatch != ""
 		}
 		min := hx.Shrink(ops, fails)
 		r := runHistory(t, min, drv, false, nil)
-		f := hx.Finding{Property: "C16", History: min}
-		if r.monitor != "" {
+		f := hx.Finding{Property: prop, History: min}
+		if r.monitor != "" && hangsOnly {
+			f.Kind, f.What, f.Name = "violation", r.monitor, prop+" "+hangName
+		} else if r.monitor != "" {
 			f.Kind, f.What = "violation", r.monitor
 			f.Name = "C16 monitor on the real allocator: pool file closed exactly once and exactly when the last link/descriptor/frozen reader disappears, no access after Close, clean failure afterwards, frozen contents do not change, digest reported = digest of the bytes handed to the CAS = digest of the current contents, bounded wait for writers (ref_inv, no_use_after_close, frozen_excludes_writes, cached_digest_valid, upload_matches, writers_wait_bounded)"
 			if r.mismatch != "" {
@@ -1792,7 +1942,7 @@ func TestHarness(t *testing.T) {
 			f.Name = "correspondence Model/FileRef.lean <-> pool_backed_file_allocator.go + fuse/nfs handle allocators (theorems ref_inv, no_use_after_close, frozen_excludes_writes, cached_digest_valid, upload_matches, writers_wait_bounded)"
 			f.Expected, f.Actual = r.expected, r.actual
 		}
-		f.Sig = hx.Sig("C16", "fileref", strings.Join(min, ";"))
+		f.Sig = hx.Sig(prop, "fileref", strings.Join(min, ";"))
 		res.Report(f)
 	}
 
@@ -1804,7 +1954,11 @@ func TestHarness(t *testing.T) {
 		}
 		out := runHistory(t, f.History, drv, false, nil)
 		account(&out)
-		if out.monitor != "" || out.mismatch != "" {
+		if hangsOnly {
+			if out.monitor != "" && out.hang {
+				report(f.History, out)
+			}
+		} else if out.monitor != "" || out.mismatch != "" {
 			report(f.History, out)
 		}
 		res.ModelLines = drv.Lines
@@ -1814,6 +1968,13 @@ func TestHarness(t *testing.T) {
 
 	mismatches, violations := 0, 0
 	handle := func(ops []string, out outcome) {
+		if hangsOnly {
+			if out.monitor != "" && out.hang && violations < 3 {
+				violations++
+				report(ops, out)
+			}
+			return
+		}
 		switch {
 		case out.monitor != "" && violations < 3:
 			violations++
@@ -1833,7 +1994,7 @@ func TestHarness(t *testing.T) {
 		handle(out.executed, out)
 	}
 
-	n := 1200
+	n := 1000
 	if o.Tier == "thorough" {
 		n = 6000
 	}
